@@ -3,6 +3,7 @@
 // Form H (history search): every operation sequence up to length k over
 //
 //	new Box<T> | new Pair<K,V>            T,K,V in {int, string, array, user class U}
+//	new G<A>(new G2<B>()) | G<A>(G2<B>()) | new G<A>()->take(new G2<B>())   nested instantiations (create 2 instances)
 //	new Box() | new AnyBox() (same for Pair)  no type arguments / plain subclass of the generic: run, not judged
 //	#i.member = value   (property store)  value kind in {int, string, array, U [, W]}
 //	#i.set_member(value) (method whose body stores into the typed property)
@@ -91,6 +92,7 @@ func cloneSeq(s []Op) []Op {
 	for i, o := range s {
 		r[i] = o
 		r[i].Args = append([]string(nil), o.Args...)
+		r[i].Args2 = append([]string(nil), o.Args2...)
 	}
 	return r
 }
@@ -98,7 +100,7 @@ func cloneSeq(s []Op) []Op {
 // measure orders sequences: shorter, fewer Pair instances, fewer method routes, simpler kinds in
 // order of appearance, `new`s earlier, writes ordered by instance.
 func measure(s []Op) []int {
-	nPair, nMeth, nSub := 0, 0, 0
+	nPair, nMeth, nSub, nNest := 0, 0, 0, 0
 	var nRanks, wRanks, newPos, wInst []int
 	for i, o := range s {
 		if o.New {
@@ -107,6 +109,20 @@ func measure(s []Op) []int {
 			}
 			if o.Raw == "sub" {
 				nSub++
+			}
+			switch o.Form {
+			case "ctor":
+				nNest += 10
+			case "short":
+				nNest += 11
+			case "chain":
+				nNest += 12
+			}
+			if o.G2 == "Pair" {
+				nPair++
+			}
+			for _, a := range o.Args2 {
+				nRanks = append(nRanks, kindRank(a))
 			}
 			for _, a := range o.Args {
 				nRanks = append(nRanks, kindRank(a))
@@ -125,7 +141,7 @@ func measure(s []Op) []int {
 			}
 		}
 	}
-	m := []int{len(s), nPair, nMeth, nSub, len(nRanks)}
+	m := []int{nNest, len(s), nPair, nMeth, nSub, len(nRanks)}
 	m = append(m, nRanks...) // type arguments in creation order
 	m = append(m, wRanks...) // written kinds in write order
 	m = append(m, newPos...)
@@ -152,20 +168,19 @@ func dropOp(s []Op, i int) []Op {
 	// dropping a `new`: drop the writes on that instance, renumber the later instances
 	idx := 0
 	for _, o := range s[:i] {
-		if o.New {
-			idx++
-		}
+		idx += o.creates()
 	}
+	w := s[i].creates()
 	for j, o := range cloneSeq(s) {
 		if j == i {
 			continue
 		}
 		if !o.New {
-			if o.Inst == idx {
+			if o.Inst >= idx && o.Inst < idx+w {
 				continue
 			}
-			if o.Inst > idx {
-				o.Inst--
+			if o.Inst >= idx+w {
+				o.Inst -= w
 			}
 		}
 		r = append(r, o)
@@ -179,10 +194,71 @@ func candidates(s []Op) [][]Op {
 	for i := range s {
 		out = append(out, dropOp(s, i))
 	}
+	hasNested := false
+	for _, o := range s {
+		if o.Form != "" {
+			hasNested = true
+		}
+	}
+	if hasNested {
+		// nested instantiations: un-nest (two plain `new`s: if that still deviates the nesting is
+		// irrelevant and the history collapses onto the plain keys), simpler form, simpler inner kinds
+		for i, o := range s {
+			if o.Form == "" {
+				continue
+			}
+			un := []Op{}
+			for j, p := range cloneSeq(s) {
+				if j == i {
+					un = append(un, Op{New: true, G: o.G, Args: append([]string(nil), o.Args...)}, Op{New: true, G: o.G2, Args: append([]string(nil), o.Args2...)})
+				} else {
+					un = append(un, p)
+				}
+			}
+			out = append(out, un)
+			if o.Form != "ctor" {
+				c := cloneSeq(s)
+				c[i].Form = "ctor"
+				out = append(out, c)
+			}
+			if o.G2 == "Pair" {
+				for keep := range members["Pair"] {
+					c := cloneSeq(s)
+					c[i].G2, c[i].Args2 = "Box", []string{o.Args2[keep]}
+					// writes on the inner instance: keep the kept member only
+					idx := 0
+					for _, q := range s[:i] {
+						idx += q.creates()
+					}
+					c2 := []Op{}
+					for _, q := range c {
+						if !q.New && q.Inst == idx+1 {
+							if q.Member != members["Pair"][keep] {
+								continue
+							}
+							q.Member = "v"
+						}
+						c2 = append(c2, q)
+					}
+					out = append(out, c2)
+				}
+			}
+			for ai, a := range o.Args2 {
+				for _, k := range allKinds[:kindRank(a)] {
+					if k == "W" {
+						continue
+					}
+					c := cloneSeq(s)
+					c[i].Args2[ai] = k
+					out = append(out, c)
+				}
+			}
+		}
+	}
 	// Pair instance -> Box keeping one member
 	inst := 0
 	for i, o := range s {
-		if !o.New {
+		if !o.New || hasNested {
 			continue
 		}
 		if o.G == "Pair" {
@@ -209,6 +285,9 @@ func candidates(s []Op) [][]Op {
 	}
 	// every Pair instance -> Box at once, keeping the same member everywhere
 	for keep, m := range members["Pair"] {
+		if hasNested {
+			break
+		}
 		isPair := map[int]bool{}
 		n := 0
 		for _, o := range s {
@@ -290,6 +369,12 @@ func candidates(s []Op) [][]Op {
 					for ai := range c[i].Args {
 						c[i].Args[ai] = sw(c[i].Args[ai])
 						if c[i].Args[ai] == "W" {
+							okc = false
+						}
+					}
+					for ai := range c[i].Args2 {
+						c[i].Args2[ai] = sw(c[i].Args2[ai])
+						if c[i].Args2[ai] == "W" {
 							okc = false
 						}
 					}
@@ -530,6 +615,7 @@ func countSeqs(a alpha, maxLen int) map[int]int64 {
 			np = int64(len(a.Types) * len(a.Types))
 		}
 	}
+	tb, tp := nb, np // typed plain `new`s per generic
 	if a.Raw {
 		if nb > 0 {
 			nb += 2
@@ -537,6 +623,10 @@ func countSeqs(a alpha, maxLen int) map[int]int64 {
 		if np > 0 {
 			np += 2
 		}
+	}
+	var nbb, nbp, npp int64 // nested instantiations (3 forms) by the generics of the two instances
+	if a.Nested {
+		nbb, nbp, npp = 3*tb*tb, 2*2*tb*tp, 2*tp*tp // short form: Box in Box only
 	}
 	wb := int64(len(a.Routes) * len(a.Vals))
 	wp := 2 * wb
@@ -551,6 +641,15 @@ func countSeqs(a alpha, maxLen int) map[int]int64 {
 			}
 			if np > 0 {
 				nxt[st{s.b, s.p + 1}] += c * np
+			}
+			if nbb > 0 {
+				nxt[st{s.b + 2, s.p}] += c * nbb
+			}
+			if nbp > 0 {
+				nxt[st{s.b + 1, s.p + 1}] += c * nbp
+			}
+			if npp > 0 {
+				nxt[st{s.b, s.p + 2}] += c * npp
 			}
 			if wr := int64(s.b)*wb + int64(s.p)*wp; wr > 0 {
 				nxt[s] += c * wr
@@ -600,6 +699,8 @@ func main() {
 		{"pair-3kinds", alpha{Generics: []string{"Pair"}, Types: three, Vals: three, Routes: both}, 4},
 		{"pair-2kinds+raw", alpha{Generics: []string{"Pair"}, Types: two, Vals: two, Routes: both, Raw: true}, 4},
 		{"box+pair-2kinds+raw", alpha{Generics: []string{"Box", "Pair"}, Types: two, Vals: two, Routes: both, Raw: true}, 4},
+		{"nested-box-3kinds", alpha{Generics: []string{"Box"}, Types: three, Vals: three, Routes: both, Nested: true}, 3},
+		{"nested-box+pair-2kinds", alpha{Generics: []string{"Box", "Pair"}, Types: two, Vals: two, Routes: both, Nested: true}, 2},
 	}
 	if !c.Quick() {
 		// thorough: the full alphabet to length 4; longer histories on sub-alphabets; the foreign class W as a value
@@ -612,6 +713,8 @@ func main() {
 			{"box-2kinds+raw", alpha{Generics: []string{"Box"}, Types: two, Vals: two, Routes: both, Raw: true}, 5},
 			{"pair-2kinds", alpha{Generics: []string{"Pair"}, Types: []string{"int", "U"}, Vals: []string{"int", "U"}, Routes: both}, 5},
 			{"box-prop-3kinds", alpha{Generics: []string{"Box"}, Types: three, Vals: three, Routes: []string{"prop"}}, 6},
+			{"nested-box-4kinds", alpha{Generics: []string{"Box"}, Types: four, Vals: four, Routes: both, Nested: true}, 3},
+			{"nested-box+pair-2kinds", alpha{Generics: []string{"Box", "Pair"}, Types: two, Vals: two, Routes: both, Nested: true}, 3},
 		}
 	}
 	expected := map[string]map[int]int64{}
